@@ -5,8 +5,8 @@ import tempfile
 import time
 import multiprocessing as mp
 
-Z3_TIMEOUT_MS = int(os.environ.get("VERIF_Z3_TIMEOUT_MS", "20000"))
-CVC5_TIMEOUT_S = int(os.environ.get("VERIF_CVC5_TIMEOUT_S", "40"))
+Z3_TIMEOUT_MS = int(os.environ.get("VERIF_Z3_TIMEOUT_MS", "120000"))
+CVC5_TIMEOUT_S = int(os.environ.get("VERIF_CVC5_TIMEOUT_S", "60"))
 CVC5 = "/usr/bin/cvc5"
 
 
